@@ -273,7 +273,27 @@ def check_dense_lip(case):
     return PASS(0 < abs(r) < float('inf') and F.n_temporal(f) >= 1, labels)
 
 
+@st.composite
+def verylong_cases(draw, tier, kind):
+    """Windows of 33..48 samples on traces of 50..90 samples with few distinct values (exact ties inside one window)."""
+    x = ('var', 'x')
+    pr = ('pred', draw(st.sampled_from(['>=', '>', '<=', '<'])), x, ('const', draw(st.sampled_from([0.0, 1.0]))))
+    b = draw(st.integers(33, 48))
+    a = draw(st.sampled_from([0, 0, 1, 5]))
+    ops = ['once', 'historically'] + (['eventually', 'always'] if kind == 'dt_off' else [])
+    f = ('tun', draw(st.sampled_from(ops)), a, b, pr)
+    if draw(st.booleans()):
+        f = ('un', 'not', f)
+    if draw(st.booleans()):
+        f = ('bin', draw(st.sampled_from(['and', 'or', 'implies'])), f, ('tun', draw(st.sampled_from(['once', 'historically'])), 0, draw(st.integers(33, 40)), ('un', 'not', pr)))
+    n = draw(st.integers(50, 90))
+    vals = st.sampled_from([0.5, 1.5, -1.0, 2.0, 5.0, -3.0, -1.0])
+    return {'formula': f, 'vars': ['x'], 'trace': {'x': draw(st.lists(vals, min_size=n, max_size=n))}, 'kind': kind}
+
+
 LANES = [
+    Lane('sign_verylong_on', lambda tier: verylong_cases(tier, 'dt_on'), check, 120, 1500, candidates),
+    Lane('sign_verylong_off', lambda tier: verylong_cases(tier, 'dt_off'), check, 80, 1000, candidates),
     Lane('lip_ct_off', lambda tier: dense_lip_cases(tier, 'ct_off'), check_dense_lip, 1500, 20000, ct_candidates),
     Lane('lip_ct_on', lambda tier: dense_lip_cases(tier, 'ct_on'), check_dense_lip, 1000, 15000, ct_candidates),
     Lane('sign_ct_off', lambda tier: dense_cases(tier, 'ct_off'), check_dense, 2500, 40000, ct_candidates),
